@@ -51,4 +51,8 @@ VARIANTS = [
     T("move-validate-by-assert", "jordancurve.JordanCurve.move", "point = Point2D(*point)", "point = Point2D(*point)\n    assert isinstance(point, Point2D)"),
     T("F3-loop-as-any", "shape.SimpleShape._contains_shape", F3_OLD,
       "inverted = ~self\n        return any((inverted in ~subshape for subshape in other.subshapes))"),
+    M("point-scale-writes-x-before-y-product", "polygon.Point2D.scale",
+      "new_x = self._x * xscale\n    new_y = self._y * yscale\n    self._x = new_x\n    self._y = new_y",
+      "self._x = self._x * xscale\n    self._y = self._y * yscale", ["R11.4"]),
+    T("point-scale-tuple-store", "polygon.Point2D.scale", "self._x = new_x\n    self._y = new_y", "self._x, self._y = (new_x, new_y)"),
 ]
